@@ -130,6 +130,8 @@ type Sim struct {
 	KeepLog   bool
 
 	sleepers int
+	sleepSeq   uint64
+	sleepUntil map[uint64]time.Time
 	barrier, barrierWant atomic.Int32
 
 	// Pair mode (race detection): release two at once.
@@ -141,7 +143,7 @@ func New(t *Tape, sc Sched) *Sim {
 		T: t, Sched: sc, Epoch0: time.Now(),
 		gors: map[int64]*Gor{}, parked: map[string]*parked{},
 		wake: make(chan struct{}, 1), abort: make(chan struct{}),
-		hash: sha256.New(), prios: map[string]int{}, KeepLog: true,
+		hash: sha256.New(), prios: map[string]int{}, KeepLog: true, sleepUntil: map[uint64]time.Time{},
 	}
 }
 
@@ -389,6 +391,7 @@ func (s *Sim) Yield(desc string) *Gor {
 // Sleep blocks for d of virtual time (or until done is closed / the run is
 // aborted) and then yields. It reports whether done fired first.
 func (s *Sim) Sleep(d time.Duration, done <-chan struct{}, desc string) (cancelled bool) {
+	var sleepID uint64
 	if d > 0 || d < 0 {
 		var tc <-chan time.Time
 		if d > 0 {
@@ -397,6 +400,9 @@ func (s *Sim) Sleep(d time.Duration, done <-chan struct{}, desc string) (cancell
 			tc = tm.C
 			s.mu.Lock()
 			s.sleepers++
+			s.sleepSeq++
+			sleepID = s.sleepSeq
+			s.sleepUntil[sleepID] = time.Now().Add(d)
 			s.mu.Unlock()
 		}
 		select {
@@ -414,6 +420,7 @@ func (s *Sim) Sleep(d time.Duration, done <-chan struct{}, desc string) (cancell
 		if d > 0 {
 			s.mu.Lock()
 			s.sleepers--
+			delete(s.sleepUntil, sleepID)
 			s.mu.Unlock()
 		}
 	}
@@ -544,7 +551,15 @@ func (s *Sim) Run(finished func() bool, drain time.Duration) {
 				// a harness sleeper with a finite deadline will park later (or, if its incarnation was killed
 				// meanwhile, end without a word: hence a timed wait)
 				idleSince = time.Time{}
-				tm := time.NewTimer(time.Hour)
+				s.mu.Lock()
+				wait := time.Duration(1)
+				for _, dl := range s.sleepUntil {
+					if d := dl.Sub(now) + 1; d > wait {
+						wait = d
+					}
+				}
+				s.mu.Unlock()
+				tm := time.NewTimer(wait)
 				select {
 				case <-s.wake:
 				case <-tm.C:
